@@ -31,7 +31,8 @@ NODE_CODES = {"ProfileNode": 0, "ExtractNode": 1, "NanTestNode": 2, "ReadOnlyVer
 PREFIXES = ["profile", "extract", "nan_test", "read_only_verify"]
 DIR_NAMES = ["OMPParallelDirective", "OMPDoDirective", "OMPParallelDoDirective", "ACCParallelDirective",
              "ACCLoopDirective", "ACCKernelsDirective", "OMPTargetDirective"]
-LOOP_DIRS = (1, 2, 4)
+LOOP_DIRS = (1, 2, 4)      # OMPDo, OMPParallelDo, ACCLoop: must be followed immediately by their loop
+ACC_DIRS = (3, 4, 5)       # OpenACC regions: no host calls inside
 MARK = 900000
 
 HEADER = """From Coq Require Import List ZArith Bool. Import ListNotations.
@@ -232,6 +233,67 @@ class Impl:
                     mf.expr_from_psyir(n.step_expr), self.ser_list(n.loop_body.children))
         return mf.stmt_from_psyir(n)
 
+    # ---- re-read of the WRITTEN (lowered) code: where did PreStart / PostEnd end up?
+    CALL_RE = re.compile(r"""^\s*CALL\s+(\w+)\s*%\s*(\w+)\s*(?:\(\s*["']([^"']*)["']\s*,\s*["']([^"']*)["'])?""", re.I)
+
+    def lowered_shape(self, written):
+        """shape of the written code with regions rebuilt from the PreStart/PostEnd calls of one block:
+        nested lists of ("assign",) ("if", th, el) ("do", body) ("exit",) ... ("region", (module, name), body).
+        Raises ValueError when a PreStart has no PostEnd in the same block (or vice versa)."""
+        psy = self.reader.psyir_from_source(written)
+        return self._shape_block(self.routine(psy).children)
+
+    def _psy_call(self, n):
+        N = self.N
+        if isinstance(n, N.CodeBlock):
+            txt = " ".join(str(a) for a in n.get_ast_nodes)
+        elif isinstance(n, N.Call):
+            txt = self.writer(n)
+        else:
+            return None
+        m = self.CALL_RE.match(txt)
+        if m and m.group(2).lower() in ("prestart", "predeclarevariable", "preenddeclaration", "providevariable",
+                                        "preend", "poststart", "postend"):
+            return m.group(1).lower(), m.group(2).lower(), (m.group(3), m.group(4))
+        return None
+
+    def _shape_block(self, nodes):
+        N = self.N
+        out, stack = [], []       # stack of (var, name, outer list)
+        cur = out
+        for n in nodes:
+            pc = self._psy_call(n)
+            if pc:
+                var, meth, name = pc
+                if meth == "prestart":
+                    stack.append((var, name, cur))
+                    cur = []
+                elif meth == "postend":
+                    if not stack or stack[-1][0] != var:
+                        raise ValueError("PostEnd of %s does not close the innermost PreStart of its block" % var)
+                    v, nm_, outer = stack.pop()
+                    outer.append(("region", nm_, cur))
+                    cur = outer
+                elif not stack or stack[-1][0] != var:
+                    raise ValueError("%s of %s outside its region" % (meth, var))
+                continue
+            if isinstance(n, N.IfBlock):
+                cur.append(("if", self._shape_block(n.if_body.children),
+                            self._shape_block(n.else_body.children) if n.else_body else []))
+            elif isinstance(n, N.Loop):
+                cur.append(("do", self._shape_block(n.loop_body.children)))
+            elif isinstance(n, N.Return):
+                cur.append(("return",))
+            elif isinstance(n, N.CodeBlock):
+                cur.append((" ".join(str(a) for a in n.get_ast_nodes).strip().lower(),))
+            elif isinstance(n, N.Assignment):
+                cur.append(("assign",))
+            else:
+                cur.append((type(n).__name__,))
+        if stack:
+            raise ValueError("PreStart of %s has no PostEnd in the same block" % stack[-1][0])
+        return out
+
     def apply(self, psy, tidx, path, lo, ln, options):
         """real validate+apply on a copy; -> (accepted, tree or None, psyir copy, message)"""
         c = psy.copy()
@@ -267,6 +329,17 @@ def placements(stmts):
         for lo in range(n):
             for ln in range(1, n - lo + 1):
                 out.append((path, lo, ln))
+    return out
+
+
+def ancestors(stmts, path):
+    """constructs enclosing the block at path, outermost first: ("dir", d) | ("region", tag) | ("do",) | ("if",)"""
+    out = []
+    blk = stmts
+    for i, el in path:
+        s = blk[i]
+        out.append((s[0], s[1]) if s[0] in ("dir", "region") else (s[0],))
+        blk = s[3] if (s[0] == "if" and el) else s[5] if s[0] == "do" else s[2]
     return out
 
 
@@ -523,6 +596,46 @@ def model_names(stmts, routine="sub"):
     return tags, out
 
 
+def expected_shape(stmts, counter=None, routine="sub"):
+    """shape (see Impl.lowered_shape) that the model predicts for the lowered code of a tuple tree"""
+    counter = counter if counter is not None else [0]
+    out = []
+    for s in stmts:
+        k = s[0]
+        if k == "region":
+            i = counter[0]
+            counter[0] += 1
+            name = (routine, "r%d" % i) if s[1] // 4 == 0 else ("mod", "u%d" % (s[1] // 4 - 1))
+            out.append(("region", name, expected_shape(s[2], counter, routine)))
+        elif k == "if":
+            th = expected_shape(s[2], counter, routine)
+            out.append(("if", th, expected_shape(s[3], counter, routine)))
+        elif k == "do":
+            out.append(("do", expected_shape(s[5], counter, routine)))
+        elif k == "dir":
+            out += expected_shape(s[2], counter, routine)
+        elif k == "assign":
+            out.append(("assign",))
+        else:
+            out.append((k,))
+    return out
+
+
+def erase_names(shape):
+    """region names are compared separately (names check); here only the placement of the calls matters"""
+    out = []
+    for s in shape:
+        if s[0] == "region":
+            out.append(("region", erase_names(s[2])))
+        elif s[0] == "if":
+            out.append(("if", erase_names(s[1]), erase_names(s[2])))
+        elif s[0] == "do":
+            out.append(("do", erase_names(s[1])))
+        else:
+            out.append(tuple(s))
+    return out
+
+
 def gfortran_run(ctx, stubdir, tag, written, decls, vals):
     d = ctx.scratch / "gf" / tag
     d.mkdir(parents=True, exist_ok=True)
@@ -547,6 +660,17 @@ def witness_source(kind):
                 "end subroutine sub\n" % stmt), [[0, False]], 0, 2
     return ("subroutine sub(i, a)\n  integer, intent(inout) :: i\n  integer, dimension(1:3), intent(inout) :: a\n"
             "  a(1) = 2\n  if (a(1) > 1) then\n    return\n  end if\n  a(2) = 3\nend subroutine sub\n"), [], 1, 1
+
+
+_REPORTED = set()
+
+
+def report_finding(ctx, key, what, rep):
+    """one report per key and run (ctx.finding decides KNOWN-FINDING vs VIOLATION)"""
+    if key in _REPORTED:
+        return
+    _REPORTED.add(key)
+    ctx.finding(key, what, rep)
 
 
 def replay_witness(ctx, impl, key, stubdir=None):
@@ -582,9 +706,31 @@ def replay_witness(ctx, impl, key, stubdir=None):
         if st == "ran" and verdict != "unbalanced":
             ctx.violation({"property": "C28", "what": "interpreter says unbalanced but the compiled run against the "
                            "checking stub library does not", "key": key, "detail": rep}, no_input=True)
-    ctx.finding(key, "%s accepts a region whose body leaves it by %s: PreStart without PostEnd" % (tname, kind.upper()),
-                rep)
+    report_finding(ctx, key, "%s accepts a region whose body leaves it by %s: PreStart without PostEnd"
+                   % (tname, kind.upper()), rep)
     return True
+
+
+def targeted_programs():
+    """fixed shapes run first on every seed: a loop under each of the 7 directive classes (with EXIT, CYCLE, RETURN
+    in reach), a statement under each region directive, and nested loops whose EXIT stays inside a selection."""
+    i, a = ("var", "i"), lambda e: ("idx", "a", [e])
+    gt = lambda l, r: ("bin", "Gt", l, r)
+    out = []
+    for d in range(7):
+        loop = ("do", "i", ("lit", 1), ("lit", 3), ("lit", 1),
+                [("assign", "a", [i], i), ("if", gt(a(i), ("lit", 1)), [("exit",) if d % 2 else ("cycle",)], [])])
+        prog = [("assign", "s", [], ("lit", 1)), ("dir", d, [loop]), ("assign", "t", [], ("var", "s"))]
+        if d in (0, 3, 5, 6):
+            prog.append(("dir", d, [("assign", "m", [], ("lit", 2))]))
+        if d % 3 == 0:
+            prog.append(("if", gt(("var", "s"), ("lit", 0)), [("return",)], []))
+        out.append(prog)
+    inner = ("do", "j", ("lit", 1), ("lit", 2), ("lit", 1), [("if", gt(("var", "j"), ("lit", 1)), [("exit",)], [])])
+    out.append([("do", "i", ("lit", 1), ("lit", 3), ("lit", 1),
+                 [("assign", "a", [i], i), inner, ("if", gt(a(i), ("lit", 1)), [("exit",)], [("cycle",)])]),
+                ("return",)])
+    return out
 
 
 # ------------------------------------------------------------------ main
@@ -605,6 +751,7 @@ def gen_opts(rng):
 
 def run(ctx):
     from psyclone.configuration import Config
+    _REPORTED.clear()
     impl = Impl()
     valid_prefixes = list(Config.get().valid_psy_data_prefixes)
     ctx.cov["rule"] = (
@@ -643,8 +790,13 @@ def run(ctx):
     except Exception as e:      # fail-closed translator: the obligations can no longer be checked
         translate_error = "%s: %s" % (type(e).__name__, e)
         ctx.log("translator failed: " + translate_error)
-    ok, rep = ctx.prove()
-    ctx.log("proof ok=%s discharged=%d/%d" % (ok, ctx.cov["discharged"], ctx.cov["obligations"]))
+    ok, proof_rep = ctx.prove()
+    if not ok and "coq build failed" in proof_rep.get("errors", []) and not proof_rep.get("failed_at", "").startswith(("./C28", "C28", "./Properties/C28", "Properties/C28")):
+        # another property's files being edited concurrently can break the shared make run: retry once
+        ctx.log("build failed outside C28 (%s); retrying once" % proof_rep.get("failed_at"))
+        ok, proof_rep = ctx.prove()
+    ctx.log("proof ok=%s discharged=%d/%d %s" % (ok, ctx.cov["discharged"], ctx.cov["obligations"],
+                                                 "" if ok else proof_rep.get("errors")))
     model_usable = translate_error is None and (core.COQ / "C28" / "Gen.vo").exists()
     stubdir = build_stubs(ctx) if ctx.thorough else None
 
@@ -660,9 +812,10 @@ def run(ctx):
 
     # ---- generated cases
     rng = ctx.rng("gen")
-    nprog = ctx.pick(14, 200)
+    nprog = ctx.pick(8, 70)
     max_stage2 = ctx.pick(2, 3)
     stage2_sample = ctx.pick(14, 30)
+    max_names = ctx.pick(150, 700)
     groups = []          # (program tuples, Names, [Case], decls, stores)
     names_cases = []     # (tree, observed names)
     auto_cases = []
@@ -670,12 +823,17 @@ def run(ctx):
     gf_jobs = []
     n_out_of_subset = 0
     n_writes = 0
-    for pi in range(nprog):
+    fixed = targeted_programs()
+    for pi in range(-len(fixed), nprog):
         g = fortgen.Gen(rng, max_depth=2, allow_exit=True, two_d=(rng.random() < 0.3))
-        base = g.program(rng.randint(2, 4))
-        base = add_returns(base, rng)
-        if rng.random() < 0.4:
-            base = add_dirs(base, rng)
+        if pi < 0:
+            base = fixed[pi + len(fixed)]
+            g = fortgen.Gen(rng, arrays={"a": [(1, 3)]})
+        else:
+            base = g.program(rng.randint(2, 4))
+            base = add_returns(base, rng)
+            if rng.random() < 0.4:
+                base = add_dirs(base, rng)
         decls = g.decls()
         stores = [g.store() for _ in range(3)]
         stores[1][0][("n", ())] = 0
@@ -716,7 +874,7 @@ def run(ctx):
                         n_out_of_subset += 1
                         continue
                     c.pysafe = True
-                    c.full = rng.random() < 0.12
+                    c.full = rng.random() < ctx.pick(0.08, 0.05)
                     key = (text, stage, tidx, path, lo, ln, json.dumps(o, sort_keys=True), repr(prog) if stage == 2 else "")
                     ctx.count(key, c.acc)
                     ctx.hist("verdict", "%s:%s" % (TRANS_NAMES[tidx], "accepted" if c.acc else "refused"))
@@ -724,6 +882,17 @@ def run(ctx):
                         ctx.hist("refusal", re.sub(r"'[^']*'|\d+", "_", c.msg.split("Error:")[-1])[:70].strip())
                         cases.append(c)
                         continue
+                    # ---- placement rules evaluated directly on the implementation's verdict
+                    ancs = ancestors(prog, path)
+                    place = {"program": text, "program_tree_before": prog, "transformation": TRANS_NAMES[tidx],
+                             "selected": {"path": path, "first": lo, "count": ln}, "tree_after": c.res}
+                    if ancs and ancs[-1][0] == "dir" and ancs[-1][1] in LOOP_DIRS:
+                        report_finding(ctx, "%s/between-loop-directive-and-loop" % TRANS_NAMES[tidx],
+                                       "PSyData calls are placed between a %s and the loop it applies to"
+                                       % DIR_NAMES[ancs[-1][1]], place)
+                    if any(a[0] == "dir" and a[1] in ACC_DIRS for a in ancs):
+                        report_finding(ctx, "%s/inside-openacc-region" % TRANS_NAMES[tidx],
+                                       "PSyData calls are placed inside an OpenACC region", place)
                     inst, table = instrument(c.res)
                     c.pysafe = not table
                     ctx.hist("accepted_class", "safe" if c.pysafe else "gap:" + ",".join(sorted({t[0] for t in table.values()})))
@@ -751,11 +920,11 @@ def run(ctx):
                             continue
                         for kind, esc in seen:
                             for cls in set(esc):
-                                ctx.finding("%s/%s-in-region" % (cls, kind),
-                                            "%s: region left by %s (PreStart without PostEnd)" % (cls, kind), rep)
+                                report_finding(ctx, "%s/%s-in-region" % (cls, kind),
+                                               "%s: region left by %s (PreStart without PostEnd)" % (cls, kind), rep)
                         break
                     # ---- names / written code (sampled: writing lowers a copy and is comparatively slow)
-                    if rng.random() < 0.04 or (stage == 2 and rng.random() < 0.2):
+                    if len(names_cases) < max_names and (rng.random() < 0.04 or (stage == 2 and rng.random() < 0.2)):
                         n_writes += 1
                         try:
                             written = impl.writer(cpsy)
@@ -789,13 +958,26 @@ def run(ctx):
     # ---- names: the property (no duplicate unless the user asked) on the implementation's output
     for res, obs, text, tname, tgt, written, nm in names_cases:
         tags, _ = model_names(res)
+        if not any(s_[0] == "dir" for _, b_ in blocks(res) for s_ in b_):
+            try:
+                low = impl.lowered_shape(written)
+                bad_low = None if erase_names(low) == erase_names(expected_shape(res)) else \
+                    "PreStart/PostEnd calls do not enclose the region's statements"
+            except ValueError as e:
+                low, bad_low = None, str(e)
+            ctx.hist("lowered_reread", "ok" if bad_low is None else "BAD")
+            if bad_low:
+                prop_failures.append({"what": "written (lowered) code: " + bad_low, "program": text, "written_code": written,
+                                      "transformation": tname, "target": tgt, "expected_shape": expected_shape(res),
+                                      "lowered_shape": low})
+                continue
         if len(obs) != len(tags):
             prop_failures.append({"what": "number of PreStart calls differs from the number of regions", "program": text,
                                   "written": written, "transformation": tname, "target": tgt})
             continue
         dup = [n for i, n in enumerate(obs) if n in obs[:i] and not (tags[i] // 4 and tags[obs.index(n)] // 4)]
         if dup:
-            ctx.finding("%s/duplicate-region-name" % tname, "two regions get the same automatic name",
+            report_finding(ctx, "%s/duplicate-region-name" % tname, "two regions get the same automatic name",
                         {"program": text, "written_code": written, "duplicates": dup, "transformation": tname,
                          "target": tgt})
     # ---- model correspondence (Coq, vm_compute)
@@ -804,7 +986,7 @@ def run(ctx):
         pc = ["(%s, [%s])" % (mf.stmts_to_coq(p, nm), ";\n ".join(rcase_coq(c, nm) for c in cs))
               for p, nm, cs, _ in groups if cs]
         gidx = [i for i, g in enumerate(groups) if g[2]]
-        bad = ctx.coq_eval_failing(HEADER, "list stmt * list rcase", "pcheck", pc, shard=ctx.pick(6, 25), timeout=900)
+        bad = ctx.coq_eval_failing(HEADER, "list stmt * list rcase", "pcheck", pc, shard=ctx.pick(3, 10), timeout=900)
         stricter = 0
         for b in bad:
             p, nm, cs, text = groups[gidx[b]]
@@ -926,7 +1108,7 @@ def run(ctx):
                        "broken": ("translator props/C28/translate.py (fail-closed): " + translate_error) if translate_error
                        else "correspondence C28.Gen.apply_impl = PSyDataTrans.validate/apply" if disagreements
                        else "proof obligations of Properties/C28.v (regenerated tables no longer satisfy GenProofs.v)",
-                       "proof_report": rep if not ok else None, "first_differing_case": first,
+                       "proof_report": proof_rep if not ok else None, "first_differing_case": first,
                        "n_differing": len(disagreements),
                        "searched": "every accepted placement was executed on 3 stores; no unbalanced trace outside the known findings"},
                       no_input=True)
